@@ -96,8 +96,28 @@ pub struct OptionReader {
     pub via: String,
 }
 
+/// one `match` arm of a hand-written reader (`tags` in the pattern / guard → `variants` constructed in the body)
+/// or writer (`variants` in the pattern → `tags` emitted in the body)
+#[derive(Clone, Debug, PartialEq)]
+pub struct Arm {
+    pub func: String,
+    pub tags: Vec<String>,
+    pub variants: Vec<String>,
+}
+
+/// the tag ↔ variant dispatch of the hand-written readers and writers of one value enum (`FontData`, `DestView`,
+/// `ColorSpace`, `StreamFilter`, `XObject`, `Action`, …)
+#[derive(Clone, Debug, Default)]
+pub struct Dispatch {
+    pub value_enum: String,
+    pub variants: Vec<String>,
+    pub reader: Vec<Arm>,
+    pub writer: Vec<Arm>,
+}
+
 #[derive(Default, Debug)]
 pub struct Extracted {
+    pub dispatch: Vec<Dispatch>,
     pub models: Vec<Model>,
     pub option_reader: OptionReader,
     pub problems: Vec<String>,
@@ -758,6 +778,178 @@ fn quote_pat(p: &syn::Pat) -> String {
 }
 
 // ------------------------------------------------------------------------------------------------
+// tag ↔ variant dispatch of the hand-written readers and writers
+
+fn scan_tokens(ts: proc_macro2::TokenStream, pairs: &mut Vec<(String, String)>, lits: &mut Vec<String>) {
+    let toks: Vec<proc_macro2::TokenTree> = ts.into_iter().collect();
+    let mut i = 0;
+    while i < toks.len() {
+        match &toks[i] {
+            proc_macro2::TokenTree::Group(g) => scan_tokens(g.stream(), pairs, lits),
+            proc_macro2::TokenTree::Literal(l) => {
+                let t = l.to_string();
+                if t.len() >= 2 && t.starts_with('"') && t.ends_with('"') {
+                    lits.push(t[1..t.len() - 1].replace("\\\"", "\"").replace("\\\\", "\\"));
+                }
+            }
+            proc_macro2::TokenTree::Ident(a) => {
+                if i + 3 < toks.len() {
+                    if let (proc_macro2::TokenTree::Punct(p1), proc_macro2::TokenTree::Punct(p2), proc_macro2::TokenTree::Ident(b)) = (&toks[i + 1], &toks[i + 2], &toks[i + 3]) {
+                        if p1.as_char() == ':' && p2.as_char() == ':' {
+                            pairs.push((a.to_string(), b.to_string()));
+                        }
+                    }
+                }
+            }
+            _ => {}
+        }
+        i += 1;
+    }
+}
+
+struct RawArm {
+    func: String,
+    pat_pairs: Vec<(String, String)>,
+    pat_lits: Vec<String>,
+    body_pairs: Vec<(String, String)>,
+    body_lits: Vec<String>,
+}
+
+struct MatchCollector<'a> {
+    func: String,
+    out: &'a mut Vec<RawArm>,
+}
+
+impl<'a, 'ast> syn::visit::Visit<'ast> for MatchCollector<'a> {
+    fn visit_expr_match(&mut self, m: &'ast syn::ExprMatch) {
+        for arm in &m.arms {
+            let mut ra = RawArm { func: self.func.clone(), pat_pairs: vec![], pat_lits: vec![], body_pairs: vec![], body_lits: vec![] };
+            scan_tokens(quote::ToTokens::to_token_stream(&arm.pat), &mut ra.pat_pairs, &mut ra.pat_lits);
+            if let Some((_, g)) = &arm.guard {
+                scan_tokens(quote::ToTokens::to_token_stream(g), &mut ra.pat_pairs, &mut ra.pat_lits);
+            }
+            scan_tokens(quote::ToTokens::to_token_stream(&arm.body), &mut ra.body_pairs, &mut ra.body_lits);
+            self.out.push(ra);
+        }
+        syn::visit::visit_expr_match(self, m);
+    }
+}
+
+fn collect_enums(items: &[syn::Item], out: &mut BTreeMap<String, Vec<String>>) {
+    for it in items {
+        match it {
+            syn::Item::Enum(e) => {
+                out.insert(e.ident.to_string(), e.variants.iter().map(|v| v.ident.to_string()).collect());
+            }
+            syn::Item::Mod(m) if !is_cfg_test(&m.attrs) => {
+                if let Some((_, inner)) = &m.content {
+                    collect_enums(inner, out);
+                }
+            }
+            _ => {}
+        }
+    }
+}
+
+fn collect_impl_arms(items: &[syn::Item], readers: &mut Vec<RawArm>, writers: &mut Vec<RawArm>) {
+    for it in items {
+        match it {
+            syn::Item::Impl(im) => {
+                let ty = type_text(&im.self_ty);
+                for ii in &im.items {
+                    if let syn::ImplItem::Fn(f) = ii {
+                        let name = f.sig.ident.to_string();
+                        let is_reader = name.starts_with("from_");
+                        let is_writer = matches!(name.as_str(), "to_primitive" | "to_dict" | "to_pdf_stream");
+                        if !is_reader && !is_writer {
+                            continue;
+                        }
+                        let mut c = MatchCollector { func: format!("{}::{}", ty, name), out: if is_reader { &mut *readers } else { &mut *writers } };
+                        syn::visit::Visit::visit_block(&mut c, &f.block);
+                    }
+                }
+            }
+            syn::Item::Mod(m) if !is_cfg_test(&m.attrs) => {
+                if let Some((_, inner)) = &m.content {
+                    collect_impl_arms(inner, readers, writers);
+                }
+            }
+            _ => {}
+        }
+    }
+}
+
+/// enums that are not *values* a reader constructs / a writer takes apart
+const NOT_VALUE_ENUMS: &[&str] = &["Primitive", "PdfError", "Option", "Result", "Some", "None", "Ok", "Err", "XRef", "ParseFlags", "StreamInner", "StreamData"];
+
+fn dispatch_tables(parsed: &BTreeMap<String, syn::File>, models: &[Model]) -> Vec<Dispatch> {
+    let mut enums: BTreeMap<String, Vec<String>> = BTreeMap::new();
+    let mut readers = vec![];
+    let mut writers = vec![];
+    for f in parsed.values() {
+        collect_enums(&f.items, &mut enums);
+        collect_impl_arms(&f.items, &mut readers, &mut writers);
+    }
+    let is_variant = |a: &str, b: &str| enums.get(a).map(|vs| vs.iter().any(|v| v == b)).unwrap_or(false) && !NOT_VALUE_ENUMS.contains(&a);
+    // value enums: those taken apart by some writer arm
+    let mut value_enums: BTreeSet<String> = BTreeSet::new();
+    for w in &writers {
+        for (a, b) in &w.pat_pairs {
+            if is_variant(a, b) {
+                value_enums.insert(a.clone());
+            }
+        }
+    }
+    let dedup = |v: Vec<String>| -> Vec<String> {
+        let mut out: Vec<String> = vec![];
+        for x in v {
+            if !out.contains(&x) {
+                out.push(x);
+            }
+        }
+        out
+    };
+    let mut out = vec![];
+    for en in &value_enums {
+        let tag_pairs = |pairs: &[(String, String)]| -> Vec<String> {
+            pairs.iter().filter(|(a, b)| a != en && enums.contains_key(a) && !NOT_VALUE_ENUMS.contains(&a.as_str()) && is_variant(a, b)).map(|(_, b)| b.clone()).collect()
+        };
+        let own = |pairs: &[(String, String)]| -> Vec<String> { pairs.iter().filter(|(a, b)| a == en && is_variant(a, b)).map(|(_, b)| b.clone()).collect() };
+        let mut d = Dispatch { value_enum: en.clone(), variants: enums[en].clone(), reader: vec![], writer: vec![] };
+        for r in &readers {
+            let variants = dedup(own(&r.body_pairs));
+            let mut tags = r.pat_lits.clone();
+            tags.extend(tag_pairs(&r.pat_pairs));
+            let tags = dedup(tags);
+            if !variants.is_empty() && !tags.is_empty() {
+                d.reader.push(Arm { func: r.func.clone(), tags, variants });
+            }
+        }
+        // a derived stream / name enum reader dispatches on the variant names
+        if let Some(m) = models.iter().find(|m| &m.name == en && m.derives_read && !m.derives_write) {
+            for v in &m.variants {
+                if !v.other {
+                    d.reader.push(Arm { func: format!("derive(Object) for {}", en), tags: vec![v.name.clone()], variants: vec![v.ident.clone()] });
+                }
+            }
+        }
+        for w in &writers {
+            let variants = dedup(own(&w.pat_pairs));
+            let mut tags = w.body_lits.clone();
+            tags.extend(tag_pairs(&w.body_pairs));
+            let tags = dedup(tags);
+            if !variants.is_empty() && !tags.is_empty() {
+                d.writer.push(Arm { func: w.func.clone(), tags, variants });
+            }
+        }
+        if !d.reader.is_empty() {
+            out.push(d);
+        }
+    }
+    out
+}
+
+// ------------------------------------------------------------------------------------------------
 
 pub fn extract(repo_root: &str) -> Extracted {
     let mut ex = Extracted::default();
@@ -897,6 +1089,10 @@ pub fn extract(repo_root: &str) -> Extracted {
     }
     ex.models.sort_by(|a, b| a.name.cmp(&b.name));
     ex.option_reader = option_reader(&parsed, &mut ex.problems);
+    ex.dispatch = dispatch_tables(&parsed, &ex.models);
+    if ex.dispatch.is_empty() {
+        ex.problems.push("no hand-written reader / writer dispatch (match arms from a tag to an enum variant) found at all".into());
+    }
     ex
 }
 
@@ -1034,6 +1230,29 @@ pub fn lean_text(ex: &Extracted) -> String {
     o
 }
 
+pub fn lean_dispatch_text(ex: &Extracted) -> String {
+    let list = |v: &[String]| format!("[{}]", v.iter().map(|x| lean_str(x)).collect::<Vec<_>>().join(", "));
+    let arms = |as_: &[Arm]| {
+        if as_.is_empty() {
+            "[]".to_string()
+        } else {
+            format!("[\n{}\n  ]", as_.iter().map(|a| format!("    {{ func := {}, tags := {}, variants := {} }}", lean_str(&a.func), list(&a.tags), list(&a.variants))).collect::<Vec<_>>().join(",\n"))
+        }
+    };
+    let mut o = String::new();
+    o.push_str("import PdfModel.Model.Schema\n\n");
+    o.push_str("/-! GENERATED by `pdfverif extract` (harness/src/extract.rs) from `pdf/src/**/*.rs`. Do not edit.\n");
+    o.push_str("    The `match` arms of the hand-written readers (`from_*`: tag in the pattern / guard → enum variant constructed in\n");
+    o.push_str("    the body) and writers (`to_primitive`, `to_dict`, `to_pdf_stream`: variant in the pattern → tags in the body),\n");
+    o.push_str("    grouped by the value enum they construct / take apart. -/\n\n");
+    o.push_str("namespace Generated\nopen Derive\n\n");
+    for d in &ex.dispatch {
+        o.push_str(&format!("def d_{} : Dispatch where\n  valueEnum := {}\n  variants := {}\n  reader := {}\n  writer := {}\n\n", d.value_enum, lean_str(&d.value_enum), list(&d.variants), arms(&d.reader), arms(&d.writer)));
+    }
+    o.push_str(&format!("def generatedDispatch : List Dispatch := [{}]\n\nend Generated\n", ex.dispatch.iter().map(|d| format!("d_{}", d.value_enum)).collect::<Vec<_>>().join(", ")));
+    o
+}
+
 // ------------------------------------------------------------------------------------------------
 // output: JSON
 
@@ -1084,6 +1303,11 @@ pub fn json_value(ex: &Extracted) -> Value {
             "missing_kinds": ex.option_reader.missing_kinds, "peeled": ex.option_reader.peeled,
             "tolerant_flag": ex.option_reader.tolerant_flag, "via": ex.option_reader.via,
         },
+        "dispatch": ex.dispatch.iter().map(|d| json!({
+            "value_enum": d.value_enum, "variants": d.variants,
+            "reader": d.reader.iter().map(|a| json!({"func": a.func, "tags": a.tags, "variants": a.variants})).collect::<Vec<_>>(),
+            "writer": d.writer.iter().map(|a| json!({"func": a.func, "tags": a.tags, "variants": a.variants})).collect::<Vec<_>>(),
+        })).collect::<Vec<_>>(),
         "files_parsed": ex.files.len(),
     })
 }
@@ -1244,8 +1468,9 @@ pub fn main(args: &[String], default_repo: &str) -> i32 {
     let ex = extract(&repo);
     let lean = lean_text(&ex);
     let js = serde_json::to_string_pretty(&json_value(&ex)).unwrap() + "\n";
+    let disp = lean_dispatch_text(&ex);
     let dir = Path::new(&out_dir);
-    for (name, body) in [("Schemas.lean", &lean), ("schemas.json", &js)] {
+    for (name, body) in [("Schemas.lean", &lean), ("Dispatch.lean", &disp), ("schemas.json", &js)] {
         match write_if_changed(&dir.join(name), body) {
             Ok(ch) => println!("extract: {} {}", dir.join(name).display(), if ch { "rewritten" } else { "unchanged" }),
             Err(e) => {
